@@ -669,5 +669,10 @@ SameVals(Sx, a, b) ==
          IF IsCfg(x) THEN IsCfg(y) /\ SameVals(f, x, y)
          ELSE IF f.kind = "list" /\ IsSchema(f.item) /\ x.t = "list" THEN
               y.t = "list" /\ Len(y.l) = Len(x.l) /\ \A j \in DOMAIN x.l : SameVals(f.item, x.l[j], y.l[j])
+         \* a field bound to an environment variable that is set: C14 governs what a fresh configuration
+         \* holds after a load (the validated variable; the document never overrides it), so what C02 can ask
+         \* of the reloaded configuration is that value, not the one that was assigned over it before saving
+         ELSE IF EnvBound(f) /\ f.kind \notin {"list", "dict"} THEN
+              LET r == FieldDefault(f) IN r.ok => EqV(y, r.v)
          ELSE SameLeaf(f, x, y))
 =============================================================================
